@@ -10,6 +10,11 @@
 //     S nx ny nz px py pz nthreads seed       dump + run one hydro step on the real objects with `nthreads` VIRTUAL
 //                                             threads interleaved by SplitMix64(seed) (see below)
 //     P nx ny nz px py pz t u                 dump + lock the real tasks t and u one after the other (all locks free)
+//     O nx ny nz px py pz k t_1 .. t_k        dump + execute the REAL task objects t_1 .. t_k one after the other in this order,
+//                                             the way the worker loop does (counter reset by the real reset_hydro_tasks; a task
+//                                             may start only if its REAL parent counter is 0, i.e. it has been queued; real
+//                                             lock_dependency / start / stop / unlock_dependency; real
+//                                             decrement_number_of_unfinished_parents on its children)
 //     T nx ny nz px py pz nthreads            (only with -DC07_REAL_LOOP) dump + run the REAL worker loop: the source lines of
 //                                             do_simulation from `AtomicValue< uint_fast32_t > number_of_tasks;` to the
 //                                             `stop_parallel_timing_block();` after the `#pragma omp parallel` block are
@@ -25,6 +30,7 @@
 //     lockfail <ids...>           tasks whose REAL Task::lock_dependency() fails although every lock is free
 //     (S) sched <thread:pick ...> ; events <+id/-id ...> ; conflicts <t:u:subgrid ...> ; result ok|hang|cap <steps> <unexited> <number_of_tasks>
 //     (P) pair <r1> <r2>          return values of the two real lock_dependency() calls
+//     (O) events <+id/-id ...> ; ordered ok <k> | ordered illegal <index> <id> <counter|locked|twice|range>
 //     (T) events / conflicts / result ok 0 0 <number_of_tasks>   (same meaning as for S, from the real threads)
 //     end
 //
@@ -497,9 +503,46 @@ static void real_loop(World &w, int nthreads) {
 }
 #endif
 
+// execute the given real tasks sequentially in the given order, as one worker thread would if its fetches returned them
+static void ordered_run(World &w, const std::vector< long > &order) {
+  w.reset();
+  std::vector< char > done(w.ntask, 0);
+  std::string events;
+  std::string verdict = "ok " + std::to_string(order.size());
+  for (size_t k = 0; k < order.size(); ++k) {
+    const long id = order[k];
+    const char *bad = nullptr;
+    if (id < 0 || (size_t)id >= w.ntask)
+      bad = "range";
+    else if (done[id])
+      bad = "twice";
+    else if ((*w.tasks)[id].get_number_of_unfinished_parents() != 0)
+      bad = "counter"; // still waits for a parent: it would not be in any queue
+    else if (!(*w.tasks)[id].lock_dependency())
+      bad = "locked";
+    if (bad != nullptr) {
+      verdict = "illegal " + std::to_string(k) + " " + std::to_string(id) + " " + bad;
+      break;
+    }
+    Task &task = (*w.tasks)[id];
+    task.start(0);
+    events += " +" + std::to_string(id);
+    task.stop();
+    events += " -" + std::to_string(id);
+    task.unlock_dependency();
+    done[id] = 1;
+    for (uint_fast8_t c = 0; c < task.get_number_of_children(); ++c)
+      (*w.tasks)[task.get_child(c)].decrement_number_of_unfinished_parents();
+  }
+  printf("events%s\n", events.c_str());
+  printf("ordered %s\n", verdict.c_str());
+  w.reset();
+}
+
 int main() {
-  char line[512];
-  while (fgets(line, sizeof line, stdin)) {
+  std::string sline;
+  while (std::getline(std::cin, sline)) {
+    const char *line = sline.c_str();
     char mode = 0;
     int nx, ny, nz, px, py, pz;
     long a = 0, b = 0;
@@ -523,6 +566,14 @@ int main() {
       real_loop(w, nthreads);
       alarm(0);
 #endif
+    } else if (mode == 'O') {
+      std::istringstream is(std::string(line + n));
+      long k = 0, v = 0;
+      std::vector< long > order;
+      is >> k;
+      while ((long)order.size() < k && (is >> v))
+        order.push_back(v);
+      ordered_run(w, order);
     } else if (mode == 'P') {
       sscanf(line + n, " %ld %ld", &a, &b);
       int r1 = -1, r2 = -1;
